@@ -197,7 +197,7 @@ PROPS = {
                   'Pbc.Props.C14.ranges_sorted', 'Pbc.Props.C14.rangeLookup_spec', 'Pbc.Props.C14.rangeLookup_none',
                   'Pbc.Props.C14.cmpBytes_trans', 'Pbc.Props.C14.names_sorted_cmp', 'Pbc.Props.C14.nameLookup_spec'],
         refine=[],
-        cases=[('lookup', 1500, 20000, []), ('leaf', 30, 200, [])],
+        cases=[('lookup', 1500, 20000, []), ('leaf', 30, 200, [])], gen=(16, 96),
         oracle='c14',
         leaf_filter=['int_range_lookup'],
     ),
@@ -658,7 +658,7 @@ def main():
                        'impl_output': res['impl'][idx] if idx < len(res['impl']) else None,
                        'model_output': res['model'][idx] if idx < len(res['model']) else None}
             violations.append((what, payload))
-        for idx in diffs[:5]:
+        for idx in ([] if label.startswith('finding:') else diffs[:5]):     # (a finding's fixed input differs from the model by definition)
             corr_broken.append({'what': 'model and implementation disagree', 'label': label,
                                 'schema': schema_block_for(res['lines'], idx), 'ops': [res['lines'][idx]],
                                 'impl_output': (res['impl'][idx] if idx < len(res['impl']) else None),
